@@ -31,7 +31,11 @@ def build_early(spec, n_ids):
     return m
 
 
+_INNER_CACHE = None
+
+
 def _build(spec, n_ids):
+    global _INNER_CACHE
     k = spec['kind']
     if k == 'G':
         return chi.GaussianModel(n_dim=spec['n_dim'], centered=spec['centered'])
@@ -45,12 +49,24 @@ def _build(spec, n_ids):
         return chi.HeterogeneousModel(n_dim=spec['n_dim'], n_ids=n_ids)
     if k == 'Cov':
         inner = _build(spec['inner'], n_ids)
+        if _INNER_CACHE is not None:
+            # one and the same base model object handed to several covariate models
+            import json
+            inner = _INNER_CACHE.setdefault(
+                json.dumps(spec['inner'], sort_keys=True), inner)
         m = chi.CovariatePopulationModel(
             inner, chi.LinearCovariateModel(n_cov=spec['n_cov']))
         if spec.get('sel') is not None:
             m.set_population_parameters([list(p) for p in spec['sel']])
         return m
     if k == 'Comp':
+        if spec.get('shared_inner'):
+            _INNER_CACHE = {}
+            try:
+                return chi.ComposedPopulationModel(
+                    [_build(p, n_ids) for p in spec['parts']])
+            finally:
+                _INNER_CACHE = None
         if spec.get('shared'):
             # equal parts are one and the same object listed several times
             import json
